@@ -23,6 +23,7 @@
 
 #include <cassert>
 #include <cstddef>
+#include <cstdint>
 #include <initializer_list>
 #include <new>
 #include <utility>
@@ -416,14 +417,39 @@ class SmallVector {
       ptr[i].~T();
     }
     if (!isInline()) {
-      ::operator delete(storage_.heap_.ptr);
+      freeHeap(storage_.heap_.ptr);
+    }
+  }
+
+  // Heap storage. Plain operator new only guarantees the default new alignment, which is not enough
+  // for over-aligned element types; those get their storage from an aligned allocation whose
+  // original pointer is kept in front of the elements.
+  static constexpr bool kOverAligned = alignof(T) > alignof(std::max_align_t);
+
+  static T* allocateHeap(size_type count) {
+    if (kOverAligned) {
+      size_t bytes = count * sizeof(T) + alignof(T) + sizeof(void*);
+      char* raw = static_cast<char*>(::operator new(bytes));
+      uintptr_t base = reinterpret_cast<uintptr_t>(raw) + sizeof(void*);
+      base = (base + alignof(T) - 1) & ~(static_cast<uintptr_t>(alignof(T)) - 1);
+      reinterpret_cast<void**>(base)[-1] = raw;
+      return reinterpret_cast<T*>(base);
+    }
+    return static_cast<T*>(::operator new(count * sizeof(T)));
+  }
+
+  static void freeHeap(T* ptr) {
+    if (kOverAligned) {
+      ::operator delete(reinterpret_cast<void**>(ptr)[-1]);
+    } else {
+      ::operator delete(ptr);
     }
   }
 
   // Grow to heap storage with the specified capacity.
   // Moves existing elements, frees old heap if applicable, sets heap bit.
   void growToHeap(size_type newCap) {
-    T* newData = static_cast<T*>(::operator new(newCap * sizeof(T)));
+    T* newData = allocateHeap(newCap);
     T* oldData = data();
     size_type sz = rawSize();
 
@@ -433,7 +459,7 @@ class SmallVector {
     }
 
     if (!isInline()) {
-      ::operator delete(storage_.heap_.ptr);
+      freeHeap(storage_.heap_.ptr);
     }
 
     storage_.heap_.ptr = newData;
